@@ -69,6 +69,21 @@ class Acc:
                                "observed": jsonable(observed), "expected": jsonable(expected),
                                "note": note})
 
+    def absorb(self, r: dict):
+        """Merge the result() of an accumulator filled elsewhere (a fresh process) into this one."""
+        self.c.update(r["c"])
+        self.outcomes.update(r["outcomes"])
+        for sig, v in r["viol"].items():
+            m = self.viol.setdefault(sig, {"count": 0, "cases": []})
+            m["count"] += v["count"]
+            m["cases"] = (m["cases"] + v["cases"])[:MAX_CASES_PER_SIG]
+        for k, v in r["kf"].items():
+            m = self.kf.setdefault(k, {"count": 0, "witness": None})
+            m["count"] += v["count"]
+            m["witness"] = m["witness"] or v["witness"]
+        for smp in r["samples"]:
+            self.sample(smp)
+
     def result(self) -> dict:
         return {"c": dict(self.c), "viol": self.viol, "kf": self.kf, "samples": self.samples,
                 "outcomes": dict(self.outcomes), "note": self.note}
